@@ -28,7 +28,9 @@ func init() {
 		vcRunC13PendingOutput,
 		vcRunC13NoHandlers,
 		vcRunC13NoHandlers,
-		vcRunC13ClosedDuringAccept,
+		// before the accept path's first IsActive() check / before its post-Store re-check
+		func(t *vcTrial) { vcRunC13ClosedDuringAccept(t, vpAcceptAfterInit) },
+		func(t *vcTrial) { vcRunC13ClosedDuringAccept(t, vpAcceptAfterStore) },
 	}
 }
 
@@ -1013,8 +1015,9 @@ func vcRunC13NoHandlers(t *vcTrial) {
 // running on the connection's poller, the connection is already closed (by the poller), and the
 // accept path returns without tracking it. Shutdown then returns nil with a handler running and the
 // descriptor open. Placed with a hook callback on the accept path's goroutine; needs two pollers.
-func vcRunC13ClosedDuringAccept(t *vcTrial) {
+func vcRunC13ClosedDuringAccept(t *vcTrial, atPoint int) {
 	t.P("variant", "closed by the peer while being accepted, handler running")
+	t.P("placed_at", vcPointName(atPoint))
 	release := make(chan struct{})
 	var relOnce sync.Once
 	doRelease := func() { relOnce.Do(func() { close(release) }) }
@@ -1052,7 +1055,7 @@ func vcRunC13ClosedDuringAccept(t *vcTrial) {
 	var cli net.Conn
 	var placed int32
 	vcPointCallback.Store(func(id int, obj uintptr, arg int) {
-		if id != vpAcceptAfterInit || !atomic.CompareAndSwapInt32(&placed, 0, 1) {
+		if id != atPoint || !atomic.CompareAndSwapInt32(&placed, 0, 1) {
 			return
 		}
 		// on the accept path's goroutine, right before its IsActive() check
@@ -1118,7 +1121,7 @@ func vcRunC13ClosedDuringAccept(t *vcTrial) {
 	doRelease()
 	rec.waitClosed(3 * time.Second)
 	_ = mark
-	t.Nontrivial, t.Sig = true, "closed-during-accept"
+	t.Nontrivial, t.Sig = true, "closed-during-accept|"+vcPointName(atPoint)
 }
 
 const vc13ClosedWhileAccepted = "the peer's hang-up closed the connection while its accept was still in progress: the accept path does not track a connection that is already closed, although it is not torn down yet (its handler is still running, or - without handlers - it waits for the Close that Shutdown's close pass would issue)"
@@ -1138,11 +1141,14 @@ func vc13HupDuringAccept(evs []vcEvent, id uintptr) bool {
 			if tHup == 0 {
 				tHup = e.T
 			}
-		case vpAcceptAfterStore:
+		case vpAcceptAfterRecheck:
 			tStore = e.T
 		case vpCloseCbBeforeRun:
 			cbStarted = true
 		}
 	}
+	// "before the accept path was through with it": the hook after its post-Store re-check (a hook
+	// event is recorded before any injected delay inside the hook, so the earlier AcceptAfterStore
+	// event can precede a hang-up that the re-check still sees)
 	return tHup != 0 && !cbStarted && (tStore == 0 || tHup < tStore)
 }
